@@ -344,11 +344,16 @@ def createUpdate (s : State) (b token nJobs nGroups user : Nat) : State × Out :
           | none => (1, 1, 1)
         ({ s with updates := s.updates ++ [Update.mk b uid token sj nJobs sg nGroups false] }, .ok uid)
 
+/-- `hailtop.batch_client.globals.MAX_JOB_GROUPS_DEPTH` -/
+def maxJobGroupsDepth : Nat := 2
+
 /-- one `_create_job_group` inside `_create_job_groups` -/
 def insertGroup (s : State) (b : Nat) (upd : Nat) (gid parent : Nat) : Option State :=
   if groupCancelled s b parent then none                      -- 'job group parent has already been cancelled'
   else if (findGroup s b gid).isSome then none                -- duplicate primary key
   else if ¬ parent < gid then none                            -- assert parent_job_group_id < job_group_id
+  -- `n_rows_inserted > MAX_JOB_GROUPS_DEPTH`: the parent's ancestor rows (itself included) are copied for the new group
+  else if (ancestorsOf s b parent).length > maxJobGroupsDepth then none   -- 'job group exceeded the maximum level of nesting'
   else
     let anc := ancestorsOf s b parent
     -- an unknown parent yields no ancestor rows: the group is created with only itself as ancestor
@@ -390,19 +395,29 @@ def mkJob (u : Update) (b : Nat) (sp : JobSpec) : Job :=
 def jobParents (u : Update) (sp : JobSpec) : List Nat :=
   sp.absParents ++ sp.relParents.map (fun p => u.startJob + p - 1)
 
-/-- the checks of `_create_jobs`: `some out` = the transaction answers `out` and changes nothing -/
-def insertJobsReject (s : State) (b user : Nat) (u : Update) (bt : Batch) (first : JobSpec) (specs : List JobSpec) :
+/-- the multi-row `INSERT INTO jobs` of `insert_jobs_into_db`: MySQL processes the rows in order and the first row that
+fails decides the outcome — trigger `jobs_before_insert` (SIGNAL when the job's group is cancelled: 400), then the primary
+key (ER_DUP_ENTRY is caught by `_create_jobs`: "bunch already inserted", the request answers ok and writes nothing), then
+the foreign key on job_groups.  `seen` = ids of the rows of this statement processed so far. -/
+def jobRowsOutcome (s : State) (b : Nat) : List Job → List Nat → Option Out
+  | [], _ => none
+  | j :: rest, seen =>
+    if groupCancelled s b j.group then some (.err "cancelled")
+    else if (findJob s b j.id).isSome ∨ seen.contains j.id then some (.ok 0)
+    else if (findGroup s b j.group).isNone then some (.err "fk")
+    else jobRowsOutcome s b rest (j.id :: seen)
+
+/-- the checks of `_create_jobs`: `some out` = the transaction answers `out` and changes nothing
+(`first` is kept for the callers; the outcome no longer depends on it separately) -/
+def insertJobsReject (s : State) (b user : Nat) (u : Update) (bt : Batch) (_first : JobSpec) (specs : List JobSpec) :
     Option Out :=
   let js := specs.map (mkJob u b)
   if bt.user ≠ user ∨ bt.deleted then some (.err "not-found")
   else if u.committed then some (.err "committed")
-  -- ER_DUP_ENTRY on the first job id: the bunch was already inserted -> no-op, success
-  else if (findJob s b (mkJob u b first).id).isSome then some (.ok 0)
-  else if js.any (fun j => groupCancelled s b j.group) then some (.err "cancelled")   -- jobs_before_insert SIGNAL
-  else if js.any (fun j => (findGroup s b j.group).isNone) then some (.err "fk")      -- foreign key on job_groups
-  else if js.any (fun j => (findJob s b j.id).isSome) ∨ ¬ (js.map (·.id)).Nodup then some (.err "dup")
-  else if specs.any (fun sp => ¬ (jobParents u sp).Nodup) then some (.err "dup-parents")
-  else none
+  else match jobRowsOutcome s b js [] with
+    | some o => some o
+    -- `INSERT INTO job_parents`: a repeated (job, parent) pair is a duplicate key -> 400
+    | none => if specs.any (fun sp => ¬ (jobParents u sp).Nodup) then some (.err "dup-parents") else none
 
 /-- rows written by an accepted bunch: jobs, job_parents, staging and cancellable rows for every ancestor of the
 job's group -/
@@ -669,9 +684,13 @@ def isChildOf (s : State) (b j : Nat) (x : Job) : Bool := x.batch = b ∧ s.pare
 def complete (s : State) (b j : Nat) (att inst : Option Nat) (newState : JState) (start end_ : Option Int)
     (reason : String) (date : Nat) : State × Out :=
   match findJob s b j with
-  | none => (s, .err "no-job")
+  | none =>
+    -- no job row: with an attempt id `add_attempt` violates the foreign key attempts -> jobs (error); without one (the
+    -- canceller's form) nothing is written, every `cur_*` stays NULL and the last ELSE branch answers rc 1
+    (s, if att.isNone then .ok 1 else .err "no-job")
   | some job =>
-    if job.attempt.isSome ∧ job.attempt ≠ att then (completePrep s b j att inst start end_ reason date job, .ok 2)
+    -- `expected_attempt_id IS NOT NULL AND expected_attempt_id != in_attempt_id`: NULL (not taken) when in_attempt_id is NULL
+    if job.attempt.isSome ∧ att.isSome ∧ job.attempt ≠ att then (completePrep s b j att inst start end_ reason date job, .ok 2)
     else if job.state = .Ready ∨ job.state = .Creating ∨ job.state = .Running then
       (updateJobs (completeJob (completePrep s b j att inst start end_ reason date job) b j att newState job)
         (isChildOf s b j) (childUpdate newState), .ok 0)
@@ -687,7 +706,10 @@ def unschedulePrep (s : State) (b j a inst : Nat) (end_ : Int) (reason : String)
 /-- procedure `unschedule_job` -/
 def unschedule (s : State) (b j a inst : Nat) (end_ : Int) (reason : String) (date : Nat) : State × Out :=
   match findJob s b j with
-  | none => (s, .err "no-job")
+  | none =>
+    -- no job row (hence no attempt row): `cur_cores_mcpu` is NULL; on an active instance the release
+    -- `free_cores_mcpu + NULL` violates NOT NULL (error), otherwise nothing is written and the ELSE branch answers rc 1
+    (s, if instState s (some inst) = some .active then .err "no-job" else .ok 1)
   | some job =>
     if (job.state = .Creating ∨ job.state = .Running) ∧ job.attempt = some a then
       (updateJobs (unschedulePrep s b j a inst end_ reason date job) (isJob b j) (setStateAttempt .Ready none), .ok 0)
@@ -696,8 +718,10 @@ def unschedule (s : State) (b j a inst : Nat) (end_ : Int) (reason : String) (da
 /-- `add_attempt_resources` + trigger `attempt_resources_after_insert`: duplicates are no-ops (`quantity = quantity`) -/
 def addResources (s : State) (b j a : Nat) (res : List (Nat × Int)) (date : Nat) : State × Out :=
   if (findAttempt s b j a).isNone then (s, .err "fk") else
-  let fresh := (res.filter fun r => !(s.attemptRes.any fun x => x.batch = b ∧ x.job = j ∧ x.attempt = a ∧ x.res = r.1))
-  let fresh := fresh.foldl (fun acc r => if acc.any (·.1 = r.1) then acc else acc ++ [r]) []
+  -- `_resources[resource['name']] += resource['quantity']`: a resource named several times in one message is added up
+  let summed := res.foldl (fun acc r =>
+    if acc.any (·.1 = r.1) then acc.map (fun x => if x.1 = r.1 then (x.1, x.2 + r.2) else x) else acc ++ [r]) []
+  let fresh := (summed.filter fun r => !(s.attemptRes.any fun x => x.batch = b ∧ x.job = j ∧ x.attempt = a ∧ x.res = r.1))
   let bl := match findAttempt s b j a with | some at' => billed at'.row | none => 0
   let deltas := if bl = 0 then [] else fresh.flatMap fun r =>
     [(CKey.aBpUser (bpOf s b) (userOf s b) r.1, r.2 * bl), (CKey.aJob b j r.1, r.2 * bl),
